@@ -67,6 +67,28 @@ pub fn register(ctx: &mut Context, log: &Log) {
         pack(&[&a, &b, &c, &d])
     });
     let l = log.clone();
+    ctx.add_function("h9", move |a: Value, b: Value, c: Value, d: Value, e: Value, f: Value, g: Value, h: Value, i: Value| -> R {
+        rec(&l, "h9", &[&a, &b, &c, &d, &e, &f, &g, &h, &i]);
+        pack(&[&a, &b, &c, &d, &e, &f, &g, &h, &i])
+    });
+    let l = log.clone();
+    ctx.add_function("c0", move |_ftx: &cel_interpreter::FunctionContext| -> R {
+        rec(&l, "c0", &[]);
+        pack(&[])
+    });
+    let l = log.clone();
+    ctx.add_function("c2", move |_ftx: &cel_interpreter::FunctionContext, a: Value, b: i64| -> R {
+        let y = Value::Int(b);
+        rec(&l, "c2", &[&a, &y]);
+        pack(&[&a, &y])
+    });
+    let l = log.clone();
+    ctx.add_function("mo", move |This(this): This<Value>, a: i64, b: Arc<String>| -> R {
+        let (y, z) = (Value::Int(a), Value::String(b));
+        rec(&l, "mo", &[&this, &y, &z]);
+        pack(&[&this, &y, &z])
+    });
+    let l = log.clone();
     ctx.add_function("m0", move |This(this): This<Value>| -> R {
         rec(&l, "m0", &[&this]);
         pack(&[&this])
@@ -155,7 +177,18 @@ pub fn register(ctx: &mut Context, log: &Log) {
     });
 }
 
+/// Registers a logging host function under an arbitrary (e.g. a built-in's) name: one raw-value
+/// parameter, returns the list of what it received.  Mirrors `ZO!H(<<A>>, "pack")`.
+pub fn register_override(ctx: &mut Context, log: &Log, name: &str) {
+    let l = log.clone();
+    let n = name.to_string();
+    ctx.add_function(name, move |a: Value| -> R {
+        rec(&l, &n, &[&a]);
+        pack(&[&a])
+    });
+}
+
 pub const ZOO_NAMES: &[&str] = &[
     "t", "tb", "fail", "h0", "h1", "h2", "h3", "h4", "m0", "m1", "m2", "m3", "va", "idf", "fi", "fu", "fd",
-    "fs", "fy", "fb", "fl", "fis", "msi",
+    "fs", "fy", "fb", "fl", "fis", "msi", "h9", "c0", "c2", "mo",
 ];
